@@ -160,6 +160,8 @@ def unit_scaling_backend(
                     logger.info("unit scaling function: %s", node)
                     kwargs = dict(node.kwargs, constraint=None)  # unconstrained
                     replace_node_with_function(graph, node, U.add, kwargs=kwargs)
+                    # The new node must be visible to later dependency lookups
+                    _add_dependency_meta(graph, recalculate=True)
 
         # Replace nodes marked as residual-adds with unit scaled equivalent
         for node in graph.nodes:
